@@ -1,4 +1,37 @@
 import EaselModel.Core.Proto
-/-! Line-protocol driver for the C01 model (stub: answers bad-op until the model lands). -/
-open EaselModel.Proto
-def main : IO Unit := runDriver () (fun s _ => (s, "bad-op"))
+import EaselModel.Msafile.Basic
+import EaselModel.Msafile.AbcTables
+import EaselModel.Msafile.Afa
+import EaselModel.Msafile.Dump
+/-! Line-protocol driver for the C01 model: `parse fmt=… abc=… src=… ps=… hex=…` (source and page size are irrelevant
+    to the model: it sits on the abstract line reader).  Formats / modes without a model answer `unmodelled`. -/
+open EaselModel.Proto EaselModel.Msafile
+
+def abcOf (s : String) : Option (Option Abc) :=
+  if s == "text" then some none
+  else if s == "amino" then some (some abcAmino)
+  else if s == "dna" then some (some abcDna)
+  else if s == "rna" then some (some abcRna)
+  else none
+
+def abcName (a : Option Abc) : String :=
+  match a with
+  | none => "text"
+  | some x => if x.type == 3 then "amino" else if x.type == 2 then "dna" else "rna"
+
+def parseOp (ws : List String) : String :=
+  match arg? ws "fmt", abcOf ((arg? ws "abc").getD "text"), argHex? ws "hex" with
+  | some fmt, some abc, some bytes =>
+    let lines := splitLines bytes
+    if fmt == "afa" then
+      "open=ok fmt=afa abc=" ++ abcName abc ++ readAll (afaRead (afaCfg abc)) 64 lines
+    else "unmodelled"
+  | _, _, _ => "unmodelled"
+
+def step (s : Unit) (line : String) : Unit × String :=
+  let ws := words line
+  match ws with
+  | "parse" :: _ => (s, parseOp ws)
+  | _ => (s, "unmodelled")
+
+def main : IO Unit := runDriver () step
